@@ -1,67 +1,708 @@
 // hC17 — correspondence driver for property C17 (re-delivering a bulk does not duplicate
-// documents).
+// documents). Two kinds of cases (props/C17/coq/CaseDefs.v):
+//
+//	CColl  the real metaDataCollector (one instance reused for every case, as an append worker
+//	       does): Init, AppendMeta*, Filter(appended), GroupLIDsByToken
+//	CHist  histories of bulks with re-sent subsets through the real FracManager append path,
+//	       observed by a copy of the active fraction's index state and by search / histogram /
+//	       aggregation / fetch / DocsTotal on the active fraction, after seal and after restart
 package main
 
 import (
 	"encoding/json"
+	"flag"
 	"fmt"
 	"os"
+	"sort"
+	"strings"
+	"sync"
+	"time"
 
+	"github.com/ozontech/seq-db/frac"
+	"github.com/ozontech/seq-db/fracmanager"
+	"github.com/ozontech/seq-db/seq"
+
+	"verif/harness/internal/casefile"
 	"verif/harness/internal/fracbuild"
+	"verif/harness/internal/rng"
 )
 
-func explore() {
-	dir, _ := os.MkdirTemp("", "verif-c17-")
-	defer os.RemoveAll(dir)
-	fm, err := fracbuild.NewFM(dir, nil)
+// ---------------------------------------------------------------- Coq rendering
+
+func coqID(mid, rid uint64) string { return fmt.Sprintf("(%d%%N, %d%%N)", mid, rid) }
+
+func coqNList(xs []int) string {
+	p := make([]string, len(xs))
+	for i, x := range xs {
+		p[i] = fmt.Sprintf("%d%%N", x)
+	}
+	return "[" + strings.Join(p, "; ") + "]"
+}
+
+func coqMeta(mid, rid uint64, size int, toks []int) string {
+	return fmt.Sprintf("(mkMeta %s %d%%N %s)", coqID(mid, rid), size, coqNList(toks))
+}
+
+// metas of a bulk with the body tag of each: list (meta * N)
+func coqBulk(docs []Doc) string {
+	var p []string
+	for _, d := range docs {
+		p = append(p, fmt.Sprintf("(%s, %d%%N)", coqMeta(d.MID, d.RID, d.size(), d.Toks), d.Var))
+		for _, n := range d.Nested {
+			p = append(p, fmt.Sprintf("(%s, %d%%N)", coqMeta(d.MID, d.RID, 0, n), d.Var))
+		}
+	}
+	return "[" + strings.Join(p, "; ") + "]"
+}
+
+func coqIDs(ids []idPair) string {
+	p := make([]string, len(ids))
+	for i, x := range ids {
+		p[i] = coqID(x[0], x[1])
+	}
+	return "[" + strings.Join(p, "; ") + "]"
+}
+
+func coqPairsNN(xs [][2]uint64) string {
+	p := make([]string, len(xs))
+	for i, x := range xs {
+		p[i] = fmt.Sprintf("(%d%%N, %d%%N)", x[0], x[1])
+	}
+	return "[" + strings.Join(p, "; ") + "]"
+}
+
+func coqPos(p seq.DocPos) string {
+	b, o := p.Unpack()
+	return fmt.Sprintf("(%d, %d%%N)", b, o)
+}
+
+func u32s(xs []uint32) []int {
+	out := make([]int, len(xs))
+	for i, x := range xs {
+		out[i] = int(x)
+	}
+	return out
+}
+
+// ---------------------------------------------------------------- generators
+
+type gen struct{ r *rng.R }
+
+// tokens of one meta: 0..4 tokens of k/g (sometimes the same token twice), then `_all_`;
+// sometimes no token at all (only in collector cases: such a meta is invisible to search).
+func (g gen) toks(allowBare bool) []int {
+	if allowBare && g.r.Chance(1, 10) {
+		return []int{}
+	}
+	var out []int
+	kt, gt := []int{1, 2, 3, 4, 8}, []int{5, 6, 7, 9}
+	n := g.r.Intn(4)
+	for i := 0; i < n; i++ {
+		out = append(out, rng.Pick(g.r, kt))
+	}
+	if len(out) > 0 && g.r.Chance(1, 6) {
+		out = append(out, out[g.r.Intn(len(out))]) // a repeated token inside one document
+	}
+	if g.r.Chance(1, 2) { // at most one value of the group field per meta (a keyword field)
+		out = append(out, rng.Pick(g.r, gt))
+		if g.r.Chance(1, 8) {
+			out = append(out, out[len(out)-1])
+		}
+	}
+	rng.Shuffle(g.r, out)
+	return append(out, tokAll)
+}
+
+func (g gen) doc(mid, rid uint64, allowBare bool) Doc {
+	d := Doc{MID: mid, RID: rid, Var: 0, Pad: g.r.Intn(12), Toks: g.toks(allowBare)}
+	if g.r.Chance(1, 4) {
+		for i, n := 0, 1+g.r.Intn(2); i < n; i++ {
+			d.Nested = append(d.Nested, g.toks(allowBare))
+		}
+	}
+	return d
+}
+
+// ---------------------------------------------------------------- collector cases
+
+func collectorCases(w *casefile.Writer, r *rng.R, n int) {
+	g := gen{r}
+	col := frac.VerifC17NewCollector()
+	for k := 0; k < n; k++ {
+		nd := 1 + r.Intn(6)
+		var docs []Doc
+		for i := 0; i < nd; i++ {
+			docs = append(docs, g.doc(uint64(midLo+r.Intn(60)), uint64(k*10+i+1), true))
+		}
+		if r.Chance(1, 8) { // many tokens in one document
+			d := &docs[r.Intn(nd)]
+			d.Toks = nil
+			for i := 0; i < 12; i++ {
+				d.Toks = append(d.Toks, rng.Pick(r, []int{1, 2, 3, 4, 8}))
+			}
+			d.Toks = append(d.Toks, tokAll)
+		}
+		// which documents stay: chosen positions of the dropped ones
+		keep := make([]bool, nd)
+		shape := r.Intn(8)
+		for i := range keep {
+			switch shape {
+			case 0:
+				keep[i] = true
+			case 1:
+				keep[i] = false
+			case 2:
+				keep[i] = i != 0
+			case 3:
+				keep[i] = i != nd-1
+			case 4:
+				keep[i] = i == 0 || i == nd-1
+			default:
+				keep[i] = r.Bool()
+			}
+		}
+		dofilter := shape != 0 || r.Bool()
+		metas := metasOf(docs)
+		var app []seq.ID
+		var appPairs []idPair
+		kept := 0
+		for i, d := range docs {
+			if keep[i] || !dofilter {
+				kept++
+				for j := 0; j <= len(d.Nested); j++ {
+					app = append(app, d.id())
+					appPairs = append(appPairs, idPair{d.MID, d.RID})
+				}
+			}
+		}
+		blk := r.Intn(6)
+		first := 1 + r.Intn(40)
+		out := col.Run(metas, uint32(blk), dofilter, app, uint32(first))
+
+		var ms []string
+		for _, d := range docs {
+			ms = append(ms, coqMeta(d.MID, d.RID, d.size(), d.Toks))
+			for _, nn := range d.Nested {
+				ms = append(ms, coqMeta(d.MID, d.RID, 0, nn))
+			}
+		}
+		var ids []idPair
+		for _, id := range out.IDs {
+			ids = append(ids, idPair{uint64(id.MID), uint64(id.RID)})
+		}
+		var ps []string
+		for _, p := range out.Positions {
+			ps = append(ps, coqPos(p))
+		}
+		var tvals []int
+		bad := false
+		for _, t := range out.TokensValues {
+			c := tokenCode(t)
+			if c < 0 {
+				bad = true
+			}
+			tvals = append(tvals, c)
+		}
+		if bad {
+			w.Violate("collector-foreign-token", "TokensValues holds a token that was not sent", docs)
+			continue
+		}
+		var groups []string
+		for _, gr := range out.Groups {
+			groups = append(groups, casefile.NatList(u32s(gr)))
+		}
+		impl := fmt.Sprintf("(mkOut %s [%s] %s %s %s %d%%N %d%%N %d%%N [%s])", coqIDs(ids), strings.Join(ps, "; "),
+			casefile.NatList(u32s(out.TokensInDocs)), casefile.NatList(out.TokensIndex), coqNList(tvals),
+			out.DocsCounter, uint64(out.MinMID), uint64(out.MaxMID), strings.Join(groups, "; "))
+		term := fmt.Sprintf("CColl %d [%s] %s %s %d %s", blk, strings.Join(ms, "; "), casefile.Bool(dofilter),
+			coqIDs(appPairs), first, impl)
+		class := "collector-nofilter"
+		if dofilter {
+			switch {
+			case kept == 0:
+				class = "collector-filter-all-dropped"
+			case kept == nd:
+				class = "collector-filter-none-dropped"
+			default:
+				class = "collector-filter-partial"
+			}
+		}
+		nested := false
+		for _, d := range docs {
+			nested = nested || len(d.Nested) > 0
+		}
+		if nested {
+			w.Count("collector:with-nested")
+		}
+		w.Add(term, class, dofilter && kept > 0 && kept < nd,
+			map[string]any{"docs": docs, "keep": keep, "filter": dofilter, "block": blk, "first_lid": first},
+			map[string]any{"ids": ids, "tokens_in_docs": out.TokensInDocs, "tokens_index": out.TokensIndex,
+				"tokens_values": out.TokensValues, "groups": out.Groups, "docs_counter": out.DocsCounter})
+	}
+}
+
+// ---------------------------------------------------------------- history cases
+
+type Step struct {
+	Kind  string  `json:"kind"` // bulk conc seal restart
+	Docs  []Doc   `json:"docs,omitempty"`
+	Bulks [][]Doc `json:"bulks,omitempty"`
+}
+
+type History struct {
+	Mode  string `json:"mode"` // seq cross conc
+	Steps []Step `json:"steps"`
+	// ObsAt: numbers of executed steps after which the store is observed; DumpAt: after how many
+	// steps the active fraction's state is copied (-1 = never)
+	ObsAt  []int `json:"obs_at"`
+	DumpAt int   `json:"dump_at"`
+}
+
+// genHistory builds a history. mode seq: one fraction, sequential bulks; a re-sent document
+// carries the same tokens but sometimes other bytes (a probe: the first delivery must win);
+// then seal and restart. mode cross: a seal in the middle, repeats (identical content) land in
+// a later fraction. mode conc: groups of bulks delivered concurrently (identical content),
+// restart before the seal (replay of the active fraction), then seal and restart.
+func genHistory(r *rng.R, mode string, nbulks int) History {
+	g := gen{r}
+	h := History{Mode: mode, DumpAt: -1}
+	var sent [][]Doc // earlier bulks
+	var all []Doc    // first deliveries
+	nextRID := uint64(1)
+	resend := func(d Doc) Doc {
+		if mode == "seq" && r.Chance(1, 2) {
+			d.Var++
+			d.Pad = r.Intn(12)
+		}
+		return d
+	}
+	mkBulk := func() []Doc {
+		var b []Doc
+		used := map[idPair]bool{}
+		shape := r.Intn(10)
+		switch {
+		case len(sent) > 0 && shape == 0: // whole-bulk repeat
+			for _, d := range sent[r.Intn(len(sent))] {
+				b = append(b, resend(d))
+			}
+			return b
+		case len(sent) > 0 && shape == 1: // whole-bulk repeat, other order
+			for _, d := range sent[r.Intn(len(sent))] {
+				b = append(b, resend(d))
+			}
+			rng.Shuffle(r, b)
+			return b
+		}
+		nnew := r.Intn(4)
+		if (len(all) == 0 || shape == 2) && nnew == 0 {
+			nnew = 1
+		}
+		for i := 0; i < nnew; i++ {
+			d := g.doc(uint64(midLo+r.Intn(60)), nextRID, false)
+			nextRID++
+			b = append(b, d)
+			used[idPair{d.MID, d.RID}] = true
+		}
+		if len(all) > 0 && shape != 2 {
+			nold := 1 + r.Intn(3)
+			for i := 0; i < nold; i++ {
+				d := all[r.Intn(len(all))]
+				if used[idPair{d.MID, d.RID}] {
+					continue
+				}
+				used[idPair{d.MID, d.RID}] = true
+				b = append(b, resend(d))
+			}
+		}
+		switch r.Intn(4) { // position of the repeats: last, first, shuffled
+		case 0:
+		case 1:
+			for i, j := 0, len(b)-1; i < j; i, j = i+1, j-1 {
+				b[i], b[j] = b[j], b[i]
+			}
+		default:
+			rng.Shuffle(r, b)
+		}
+		return b
+	}
+	record := func(b []Doc) {
+		sent = append(sent, b)
+		for _, d := range b {
+			known := false
+			for _, a := range all {
+				known = known || (a.MID == d.MID && a.RID == d.RID)
+			}
+			if !known {
+				all = append(all, d)
+			}
+		}
+	}
+	sealAt := -1
+	if mode == "cross" {
+		sealAt = 1 + r.Intn(nbulks)
+	}
+	for i := 0; i < nbulks; i++ {
+		if mode == "conc" && r.Chance(1, 2) {
+			var bs [][]Doc
+			for j, n := 0, 2+r.Intn(2); j < n; j++ {
+				b := mkBulk()
+				if j > 0 && r.Chance(1, 2) { // the retry racing with the original
+					b = append([]Doc{}, bs[0]...)
+				}
+				bs = append(bs, b)
+			}
+			for _, b := range bs {
+				record(b)
+			}
+			h.Steps = append(h.Steps, Step{Kind: "conc", Bulks: bs})
+		} else {
+			b := mkBulk()
+			record(b)
+			h.Steps = append(h.Steps, Step{Kind: "bulk", Docs: b})
+		}
+		if i+1 == sealAt {
+			h.ObsAt = append(h.ObsAt, len(h.Steps))
+			h.Steps = append(h.Steps, Step{Kind: "seal"})
+		}
+	}
+	if mode == "seq" {
+		h.DumpAt = len(h.Steps)
+	}
+	h.ObsAt = append(h.ObsAt, len(h.Steps))
+	if mode == "conc" {
+		h.Steps = append(h.Steps, Step{Kind: "restart"})
+		h.ObsAt = append(h.ObsAt, len(h.Steps))
+	}
+	h.Steps = append(h.Steps, Step{Kind: "seal"})
+	h.ObsAt = append(h.ObsAt, len(h.Steps))
+	h.Steps = append(h.Steps, Step{Kind: "restart"})
+	h.ObsAt = append(h.ObsAt, len(h.Steps))
+	return h
+}
+
+type histResult struct {
+	h     History
+	obs   []Obs
+	dump  *frac.VerifC17State
+	err   string
+	fatal string
+}
+
+func runHistory(h History) (res histResult) {
+	res.h = h
+	defer func() {
+		if p := recover(); p != nil {
+			res.fatal = fmt.Sprint(p)
+		}
+	}()
+	dir, err := os.MkdirTemp("", "verif-c17-")
 	if err != nil {
 		panic(err)
 	}
-	a := Doc{MID: 1005, RID: 1, Var: 0, Pad: 3, Toks: []int{1, 5, 0}, Nested: [][]int{{2, 0}, {2, 6, 0}}}
-	b := Doc{MID: 1015, RID: 2, Var: 0, Pad: 0, Toks: []int{1, 0}}
-	c := Doc{MID: 1015, RID: 3, Var: 0, Pad: 9, Toks: []int{2, 6, 0}}
-	a2 := a
-	a2.Var = 1
-	a2.Pad = 7
-	variants := map[idPair][]Doc{{1005, 1}: {a, a2}, {1015, 2}: {b}, {1015, 3}: {c}}
-	probes := []Doc{a, b, c, {MID: 1, RID: 1}}
-	show := func(stage string) {
-		o, err := observe(fm, stage, probes, variants)
-		if err != nil {
-			panic(err)
-		}
-		j, _ := json.Marshal(o)
-		fmt.Println(string(j))
-		if act := fm.VerifC17Active(); act != nil {
-			j, _ = json.Marshal(act.VerifC17State())
-			fmt.Println(string(j))
+	defer os.RemoveAll(dir)
+	fm, err := fracbuild.NewFM(dir, nil)
+	if err != nil {
+		res.err = "open: " + err.Error()
+		return
+	}
+	variants := map[idPair][]Doc{}
+	var probes []Doc
+	addDocs := func(ds []Doc) {
+		for _, d := range ds {
+			k := idPair{d.MID, d.RID}
+			if len(variants[k]) == 0 {
+				probes = append(probes, d)
+			}
+			variants[k] = append(variants[k], d)
 		}
 	}
-	must := func(err error) {
-		if err != nil {
-			panic(err)
+	for _, s := range h.Steps {
+		addDocs(s.Docs)
+		for _, b := range s.Bulks {
+			addDocs(b)
 		}
 	}
-	must(sendBulk(fm, []Doc{a, b}))
-	fm.WaitIdle()
-	show("b1")
-	must(sendBulk(fm, []Doc{c, a2}))
-	fm.WaitIdle()
-	show("b2")
-	fracbuild.Seal(fm)
-	show("sealed")
-	must(sendBulk(fm, []Doc{a2, b}))
-	fm.WaitIdle()
-	show("cross")
-	fm2, err := fracbuild.NewFM(dir, nil)
-	must(err)
-	fm = fm2
-	show("restart")
+	probes = append(probes, Doc{MID: 7, RID: 7})
+	obsAt := map[int]bool{}
+	for _, k := range h.ObsAt {
+		obsAt[k] = true
+	}
+	after := func(k int) bool {
+		if k == h.DumpAt {
+			if act := fm.VerifC17Active(); act != nil {
+				st := act.VerifC17State()
+				res.dump = &st
+			}
+		}
+		if obsAt[k] {
+			o, err := observe(fm, fmt.Sprint(k), probes, variants)
+			if err != nil {
+				res.err = err.Error()
+				return false
+			}
+			res.obs = append(res.obs, o)
+		}
+		return true
+	}
+	if !after(0) {
+		return
+	}
+	for i, s := range h.Steps {
+		switch s.Kind {
+		case "bulk":
+			err = sendBulk(fm, s.Docs)
+			fm.WaitIdle()
+		case "conc":
+			err = sendConcurrently(fm, s.Bulks)
+			fm.WaitIdle()
+		case "seal":
+			fracbuild.Seal(fm)
+		case "restart":
+			fracbuild.Close(fm)
+			var fm2 *fracmanager.FracManager
+			fm2, err = fracbuild.NewFM(dir, nil)
+			if err == nil {
+				fm = fm2
+			}
+		}
+		if err != nil {
+			res.err = fmt.Sprintf("step %d (%s): %v", i, s.Kind, err)
+			return
+		}
+		if !after(i + 1) {
+			return
+		}
+	}
+	fracbuild.Close(fm)
+	return
 }
+
+func coqStep(s Step) string {
+	switch s.Kind {
+	case "bulk":
+		return "SBulk " + coqBulk(s.Docs)
+	case "conc":
+		var p []string
+		for _, b := range s.Bulks {
+			p = append(p, coqBulk(b))
+		}
+		return "SConc [" + strings.Join(p, "; ") + "]"
+	case "seal":
+		return "SSeal"
+	}
+	return "SRestart"
+}
+
+func coqQres(q QRes) string {
+	return fmt.Sprintf("(%d%%N, mkQres %s %d%%N %s %s %d%%N)", q.Tok, coqIDs(q.IDs), q.Total, coqPairsNN(q.Hist),
+		coqPairsNN(q.Agg), q.NotExists)
+}
+
+func coqObs(o Obs, probes []idPair) string {
+	var qs, fs, ts []string
+	for _, q := range o.Queries {
+		qs = append(qs, coqQres(q))
+	}
+	for i, v := range o.Fetch {
+		b := "None"
+		if v >= 0 {
+			b = fmt.Sprintf("(Some %d%%N)", v)
+		} else if v == -2 {
+			b = "(Some 999999%N)" // bytes of no delivery of this ID
+		}
+		fs = append(fs, fmt.Sprintf("(%s, %s)", coqID(probes[i][0], probes[i][1]), b))
+	}
+	for _, t := range o.DocsTotal {
+		ts = append(ts, fmt.Sprintf("%d%%N", t))
+	}
+	return fmt.Sprintf("(mkObs [%s] [%s] [%s])", strings.Join(qs, "; "), strings.Join(fs, "; "), strings.Join(ts, "; "))
+}
+
+func coqDump(st *frac.VerifC17State) (string, error) {
+	var ids []idPair
+	for i := range st.MIDs {
+		ids = append(ids, idPair{st.MIDs[i], st.RIDs[i]})
+	}
+	var toks []string
+	for name := range st.Tokens {
+		if tokenCode(name) < 0 {
+			return "", fmt.Errorf("token %q in the active fraction was never sent", name)
+		}
+	}
+	for c, name := range tokenNames {
+		l := u32s(st.Tokens[name])
+		sort.Ints(l)
+		toks = append(toks, fmt.Sprintf("(%d%%N, %s)", c, casefile.NatList(l)))
+	}
+	var ps []string
+	for i, id := range st.PosIDs {
+		ps = append(ps, fmt.Sprintf("(%s, %s)", coqID(uint64(id.MID), uint64(id.RID)), coqPos(st.Pos[i])))
+	}
+	return fmt.Sprintf("(mkDump %s [%s] [%s] %d %d%%N %d%%N %d%%N)", coqIDs(ids), strings.Join(toks, "; "),
+		strings.Join(ps, "; "), st.Blocks, st.DocsTotal, uint64(st.From), uint64(st.To)), nil
+}
+
+func emitHistory(w *casefile.Writer, res histResult) {
+	h := res.h
+	if res.fatal != "" {
+		w.Violate("history-panic", "the store panicked while a history of bulks was applied: "+res.fatal, h)
+		return
+	}
+	if res.err != "" {
+		w.Violate("history-error", "the store returned an error where none is allowed: "+res.err, h)
+		return
+	}
+	var probes []idPair
+	seen := map[idPair]bool{}
+	add := func(ds []Doc) {
+		for _, d := range ds {
+			k := idPair{d.MID, d.RID}
+			if !seen[k] {
+				seen[k] = true
+				probes = append(probes, k)
+			}
+		}
+	}
+	repeats, total, nested := 0, 0, false
+	for _, s := range h.Steps {
+		bs := s.Bulks
+		if s.Kind == "bulk" {
+			bs = [][]Doc{s.Docs}
+		}
+		for _, b := range bs {
+			for _, d := range b {
+				total++
+				if seen[idPair{d.MID, d.RID}] {
+					repeats++
+				}
+				nested = nested || len(d.Nested) > 0
+			}
+			add(b)
+		}
+	}
+	probes = append(probes, idPair{7, 7})
+	var steps []string
+	for _, s := range h.Steps {
+		steps = append(steps, coqStep(s))
+	}
+	dmp := "None"
+	if res.dump != nil && h.DumpAt >= 0 {
+		d, err := coqDump(res.dump)
+		if err != nil {
+			w.Violate("history-foreign-token", err.Error(), h)
+			return
+		}
+		dmp = fmt.Sprintf("(Some (%d, %s))", h.DumpAt, d)
+	}
+	var obs []string
+	for i, o := range res.obs {
+		obs = append(obs, fmt.Sprintf("(%d, %s)", h.ObsAt[i], coqObs(o, probes)))
+	}
+	term := fmt.Sprintf("CHist [%s] %s [%s]", strings.Join(steps, "; "), dmp, strings.Join(obs, ";\n      "))
+	if nested {
+		w.Count("history:with-nested")
+	}
+	if repeats > 0 {
+		w.Count("history:with-repeats")
+	}
+	w.Dist["history:documents-sent"] += total
+	w.Dist["history:repeats-sent"] += repeats
+	w.Add(term, "history-"+h.Mode, repeats > 0 && repeats < total, h, map[string]any{"obs": res.obs, "dump": res.dump})
+}
+
+// ---------------------------------------------------------------- main
 
 func main() {
 	if len(os.Args) > 1 && os.Args[1] == "-explore" {
 		explore()
 		return
 	}
+	seed := flag.Uint64("seed", 1, "")
+	tier := flag.String("tier", "quick", "")
+	out := flag.String("out", "", "")
+	replay := flag.String("replay", "", "")
+	flag.Parse()
+	if *out == "" {
+		fmt.Fprintln(os.Stderr, "need -out")
+		os.Exit(2)
+	}
+	w, err := casefile.New(*out, "C17", "From VLib Require Import CaseLib.\nFrom C17 Require Import Model CaseDefs.", 40)
+	if err != nil {
+		panic(err)
+	}
+	t0 := time.Now()
+	if *replay != "" {
+		var rp struct {
+			Replay struct {
+				Case struct {
+					Input json.RawMessage `json:"input"`
+				} `json:"case"`
+				Input json.RawMessage `json:"input"`
+			} `json:"replay"`
+		}
+		b, err := os.ReadFile(*replay)
+		if err != nil {
+			panic(err)
+		}
+		if err := json.Unmarshal(b, &rp); err != nil {
+			panic(err)
+		}
+		raw := rp.Replay.Case.Input
+		if len(raw) == 0 {
+			raw = rp.Replay.Input
+		}
+		var h History
+		if err := json.Unmarshal(raw, &h); err != nil || len(h.Steps) == 0 {
+			fmt.Fprintln(os.Stderr, "replay file holds no history (collector cases are replayed by seed)")
+			os.Exit(2)
+		}
+		emitHistory(w, runHistory(h))
+		w.Close()
+		return
+	}
+	nColl, nHist := 600, 330
+	if *tier == "thorough" {
+		nColl, nHist = 12000, 6000
+	}
+	r := rng.New(*seed)
+	collectorCases(w, r.Fork(), nColl)
+
+	hr := r.Fork()
+	hs := make([]History, nHist)
+	for i := range hs {
+		mode := []string{"seq", "seq", "seq", "cross", "conc"}[hr.Intn(5)]
+		hs[i] = genHistory(hr.Fork(), mode, 2+hr.Intn(5))
+	}
+	results := make([]histResult, nHist)
+	var wg sync.WaitGroup
+	sem := make(chan struct{}, 6)
+	for i := range hs {
+		wg.Add(1)
+		sem <- struct{}{}
+		go func(i int) {
+			defer wg.Done()
+			defer func() { <-sem }()
+			results[i] = runHistory(hs[i])
+		}(i)
+	}
+	wg.Wait()
+	for _, res := range results {
+		emitHistory(w, res)
+	}
+	w.Extra["seconds"] = time.Since(t0).Seconds()
+	if err := w.Close(); err != nil {
+		panic(err)
+	}
+}
+
+// ---------------------------------------------------------------- exploration (manual)
+
+func explore() {
+	r := rng.New(5)
+	h := genHistory(r, "seq", 3)
+	res := runHistory(h)
+	j, _ := json.MarshalIndent(res.h, "", " ")
+	fmt.Println(string(j))
+	j, _ = json.Marshal(res.obs)
+	fmt.Println(string(j), res.err, res.fatal)
 }
